@@ -18,6 +18,8 @@
 #include <AIToolbox/Seeder.hpp>
 #include <AIToolbox/Utils/Probability.hpp>
 #include <AIToolbox/MDP/Experience.hpp>
+#include <AIToolbox/MDP/IO.hpp>
+#include <sstream>
 #include <AIToolbox/MDP/SparseExperience.hpp>
 #include <AIToolbox/MDP/MaximumLikelihoodModel.hpp>
 #include <AIToolbox/MDP/SparseMaximumLikelihoodModel.hpp>
@@ -45,9 +47,11 @@ static void stat(const std::string & k, long n = 1) { std::printf("#stat %s %ld\
 
 // ------------------------------------------------------------------------------------------ candidates
 enum RowKind { VALID, UGLY, OFF_SMALL, SUBTHR, N_GOOD,   // accepted by the 3D setters
-               OFF_BIG = N_GOOD, NEG, TINYNEG, SUMBAD, NANV, PINFV, NINFV, ZERO, BOUNDARY, N_KINDS };
+               OFF_BIG = N_GOOD, NEG, TINYNEG, SUMBAD, NANV, PINFV, NINFV, ZERO, BOUNDARY,
+               SIGNFLIP, ALLNEG, NEGBIG, NANNEG, OFF_MID, N_KINDS };
 static const char * kindName[] = {"valid", "ugly", "off_small", "subthreshold", "off_big", "negative", "tiny_negative",
-                                  "sum_not_one", "nan", "pinf", "ninf", "zero_row", "boundary"};
+                                  "sum_not_one", "nan", "pinf", "ninf", "zero_row", "boundary",
+                                  "sign_flipped_entry", "all_negated", "negative_sum_one_big", "nan_and_negative", "off_by_3e-6"};
 
 static V1 makeRow(Rng & rng, size_t n, int kind) {
     V1 r = verif::dyadicRow(rng, n, 3, rng.coin(1, 3));
@@ -69,6 +73,13 @@ static V1 makeRow(Rng & rng, size_t n, int kind) {
         case NINFV: r[rng.below(n)] = -Inf; if (n > 1 && rng.coin()) r[(j)] = Inf; break;
         case ZERO: for (auto & x : r) x = 0.0; break;
         case BOUNDARY: r[big] += rng.coin() ? 1e-6 : -1e-6; break;
+        // rows whose ABSOLUTE values sum to one although the row is no distribution (a test on |.| alone lets them through)
+        case SIGNFLIP: { size_t k = big; if (n > 1 && rng.coin()) { for (size_t i = 0; i < n; ++i) if (i != big && r[i] > 0) k = i; } r[k] = -r[k]; break; }
+        case ALLNEG: for (auto & x : r) x = -x; break;
+        // sum exactly one with a large negative entry: (-0.5, 1.5)
+        case NEGBIG: if (n > 1) { for (auto & x : r) x = 0.0; r[big] = 1.5; r[j] = -0.5; } else r[0] = -1.0; break;
+        case NANNEG: r[big] = NaN; if (n > 1) r[j] = -0.25; break;
+        case OFF_MID: r[big] += rng.coin() ? 3e-6 : -3e-6; break;       // three times the documented tolerance
     }
     return r;
 }
@@ -131,10 +142,14 @@ static Matrix3D toDense3(const V3 & t) {   // t[a][row][col]
     for (auto & a : t) { Matrix2D x(a.size(), a[0].size()); for (size_t i = 0; i < a.size(); ++i) for (size_t j = 0; j < a[0].size(); ++j) x(i, j) = a[i][j]; m.push_back(x); }
     return m;
 }
+// Eigen sparse inputs come in three storage shapes: compressed without explicit zeros (what the library itself builds),
+// compressed WITH explicitly stored zeros, and uncompressed (insert() without makeCompressed(), spare room in every row)
+static int g_sparseShape = 0;
 static SparseMatrix2D toSparse2(const V2 & a) {
     SparseMatrix2D x(a.size(), a[0].size());
-    for (size_t i = 0; i < a.size(); ++i) for (size_t j = 0; j < a[0].size(); ++j) if (!(a[i][j] == 0.0)) x.insert(i, j) = a[i][j];
-    x.makeCompressed();
+    if (g_sparseShape == 2) x.reserve(Eigen::VectorXi::Constant(a.size(), (int)a[0].size() + 2));
+    for (size_t i = 0; i < a.size(); ++i) for (size_t j = 0; j < a[0].size(); ++j) if (g_sparseShape == 1 || !(a[i][j] == 0.0)) x.insert(i, j) = a[i][j];
+    if (g_sparseShape != 2) x.makeCompressed();
     return x;
 }
 static SparseMatrix3D toSparse3(const V3 & t) { SparseMatrix3D m; for (auto & a : t) m.push_back(toSparse2(a)); return m; }
@@ -216,6 +231,7 @@ template <class M> static std::unique_ptr<M> construct(Rng & rng, Sizes z) {
     using Base = typename Tr<M>::Base;
     const size_t S = z.S, A = z.A, O = z.O;
     std::unique_ptr<M> obj;
+    g_sparseShape = (int)rng.below(4) % 3;
     int which = (int)rng.below(10);
     Line l; l << "C06" << "ctor"; kinds<M>(l); l << P;
     std::string err;
@@ -291,12 +307,15 @@ template <class M> static std::unique_ptr<M> construct(Rng & rng, Sizes z) {
     if (obj) dumpState(l, *obj);
     l.emit();
     stat(std::string("ctor_outcome:") + err);
+    g_sparseShape = 0;
     return obj;
 }
 
 // ------------------------------------------------------------------------------------------ setters
 template <class M> static void oneOp(Rng & rng, M & m) {
     constexpr bool P = Tr<M>::pomdp;
+    g_sparseShape = (int)rng.below(4) % 3;
+    if constexpr (Tr<M>::bsparse || Tr<M>::osparse) stat(std::string("sparse_input_shape:") + (g_sparseShape == 0 ? "compressed" : g_sparseShape == 1 ? "explicit_zeros" : "uncompressed"));
     const size_t S = m.getS(), A = m.getA(); size_t O = 0;
     if constexpr (P) O = m.getO();
     Line l; l << "C06" << "op"; kinds<M>(l);
@@ -326,7 +345,16 @@ template <class M> static void oneOp(Rng & rng, M & m) {
     }
     l << "|"; if (!args.first) l << args.os.str(); l << "|" << err; dumpState(l, m);
     l.emit();
+    g_sparseShape = 0;
     stat("op:" + name); stat("op_outcome:" + err);
+}
+
+// the two views of one object must agree: tables (getTransitionFunction / getRewardFunction / getObservationFunction) against
+// the generic interface every algorithm and every converting constructor reads (getTransitionProbability /
+// getExpectedReward / getObservationProbability):   C06 acc <kb> <ko> <pomdp> <state> | <generic view>
+template <class M> static void accLine(const M & m) {
+    Line l; l << "C06" << "acc"; kinds<M>(l); l << Tr<M>::pomdp; dumpState(l, m); l << "|"; dumpSrc(l, m, Tr<M>::pomdp); l.emit();
+    stat("acc:lines");
 }
 
 template <class M> static void historyCase(Rng & rng, const std::string & tier) {
@@ -336,7 +364,56 @@ template <class M> static void historyCase(Rng & rng, const std::string & tier) 
         if constexpr (Tr<M>::pomdp) obj.reset(new M(z.O, z.S, z.A, 0.5)); else obj.reset(new M(z.S, z.A, 0.5));
     }
     int n = (int)rng.range(2, tier == "thorough" ? 40 : 12);
-    for (int i = 0; i < n; ++i) oneOp(rng, *obj);
+    accLine(*obj);
+    for (int i = 0; i < n; ++i) { oneOp(rng, *obj); if (i == n / 2 || i + 1 == n) accLine(*obj); }
+}
+
+
+// ------------------------------------------------------------------------------------------ loaders (src/MDP/IO.cpp)
+//   C06 load <kb> <pre-state> | <cut> <d> T[a][s][s1] R[s][a] | <err> <failbit> <post-state>
+// The text is what operator<< would have written for (d, T, R) — candidates of every kind, non-finite values print as nan/inf and
+// stop the reader there — possibly cut (1: inside the transition function, 2: inside the reward function, 3: empty stream).
+template <class M> static void loadCase(Rng & rng) {
+    constexpr bool sp = Tr<M>::bsparse;
+    Sizes z{(size_t)rng.range(1, 4), (size_t)rng.range(1, 3), 0};
+    std::unique_ptr<M> obj = construct<M>(rng, z);
+    if (!obj) obj.reset(new M(z.S, z.A, 0.5));
+    const size_t S = z.S, A = z.A;
+    for (int rep = (int)rng.range(1, 3); rep > 0; --rep) {
+        const double d = makeDiscount(rng, true);
+        const V3 t = transposeXY(makeTable(rng, S, A, S, "loadT"));      // [a][s][s1]
+        const V2 r = makeRewards2(rng, S, A);
+        const int cut = rng.coin(1, 4) ? 1 + (int)rng.below(3) : 0;
+        std::ostringstream os; os.precision(17);
+        // one section; `cutIt` drops its last token (dense: the last number; sparse: the last triplet, or the count when there is none)
+        auto denseSection = [&](const V2 & mtx, bool cutIt) {
+            size_t total = 0; for (auto & row : mtx) total += row.size();
+            size_t n = 0; for (auto & row : mtx) { for (double x : row) { if (cutIt && ++n == total) return; os << x << ' '; } os << '\n'; } os << '\n'; };
+        auto sparseSection = [&](const V2 & mtx, bool cutIt) {
+            std::vector<std::tuple<size_t, size_t, double>> tr;
+            size_t cells = 0;      // the reader refuses more triplets than the matrix has cells: a duplicate needs a cell skipped earlier
+            for (size_t i = 0; i < mtx.size(); ++i) for (size_t j = 0; j < mtx[i].size(); ++j) {
+                const double x = mtx[i][j]; ++cells;
+                if (x == 0.0) { if (rng.coin(1, 6)) tr.push_back({i, j, 0.0}); continue; }           // an explicitly stored zero
+                if (std::isfinite(x) && tr.size() + 2 <= cells && rng.coin(1, 3)) { tr.push_back({i, j, x / 2}); tr.push_back({i, j, x / 2}); stat("load:duplicate_triplet"); }   // duplicates are summed
+                else tr.push_back({i, j, x});
+            }
+            if (cutIt && tr.empty()) return;
+            os << tr.size() << '\n';
+            size_t n = 0; for (auto & [i, j, x] : tr) { if (cutIt && ++n == tr.size()) return; os << i << ' ' << j << ' ' << x << '\n'; }
+        };
+        if (cut != 3) {
+            os << d << '\n';
+            for (size_t a = 0; a < A; ++a) { const bool c = cut == 1 && a + 1 == A; if (sp) sparseSection(t[a], c); else denseSection(t[a], c); }
+            if (cut != 1) { if (sp) sparseSection(r, cut == 2); else denseSection(r, cut == 2); }
+        }
+        Line l; l << "C06" << "load" << (sp ? "sparse" : "dense"); dumpState(l, *obj);
+        l << "|" << (size_t)cut << d; put3(l, t); put2(l, r);
+        std::istringstream is(os.str());
+        std::string err = guarded([&] { is >> *obj; });
+        l << "|" << err << is.fail(); dumpState(l, *obj); l.emit();
+        stat(std::string("load:") + (err != "none" ? err : is.fail() ? "failbit" : "loaded")); stat("load_cut:" + std::to_string(cut));
+    }
 }
 
 // ------------------------------------------------------------------------------------------ isProbability, three implementations
@@ -431,6 +508,27 @@ template <bool Sparse> static void amdpCase(Rng & rng, long idx, size_t forceS =
     stat(Sparse ? "amdp:sparse" : "amdp:dense");
 }
 
+// AMDP with NO entropy bucket (the quantifier ranges over all bucket counts): there is no augmented state space at all, so the
+// request must be rejected with an exception that leaves the AMDP object as it was — or yield a valid model; it must never write
+// outside the tables.      C06 amdp0 <dense|sparse> <ctor|setEntropyBuckets> | <err> <buckets after> <S of the result>
+static void amdpZeroBucketsCase() {
+    for (int sparse = 0; sparse < 2; ++sparse) for (int viaSetter = 0; viaSetter < 2; ++viaSetter) {
+        Line l; l << "C06" << "amdp0" << (sparse ? "sparse" : "dense") << (viaSetter ? "setEntropyBuckets" : "ctor");
+        size_t S1 = 0, after = viaSetter ? 3 : 0;
+        std::unique_ptr<POMDP::AMDP> amdp;
+        std::string err = guarded([&] {
+            amdp.reset(new POMDP::AMDP(4, viaSetter ? 3 : 0));
+            if (viaSetter) amdp->setEntropyBuckets(0);
+            POMDP::Model<MDP::Model> model(2, 2, 2, 0.5);
+            if (sparse) { auto r = amdp->discretizeSparse(model); S1 = std::get<0>(r).getS(); }
+            else { auto r = amdp->discretizeDense(model); S1 = std::get<0>(r).getS(); }
+        });
+        if (amdp) after = amdp->getEntropyBuckets();
+        l << "|" << err << after << S1; l.emit();
+        stat(std::string("amdp0:") + err);
+    }
+}
+
 // ------------------------------------------------------------------------------------------ DDNGraph::push / CooperativeModel
 static void putTag(Line & l, const F::PartialKeys & k) { l << (size_t)k.size(); for (auto x : k) l << (size_t)x; }
 static void dumpGraph(Line & l, const F::DDNGraph & g) {
@@ -478,6 +576,59 @@ static void pushCase(Rng & rng) {
         l.emit();
         stat("push:" + err);
     }
+}
+
+// ------------------------------------------------------------------------------------------ what an accepted CooperativeModel does with its tables
+//   C06 coopdyn | S A graph | nT (rows cols entries)* | nB (tag actionTag rows cols values)* |
+//               (size psize (parentId actionId getId(parentId,actionId) getPartialSize(actionId))*size)*|S| |
+//               nQ (s a viaCopy reward (p pPartialFactors)*|space(S)|)*
+// graph, ids and probabilities are read from the OBJECT (getGraph / getTransitionFunction / getTransitionProbability /
+// getExpectedReward); half of the queries go through a copy-constructed model after the original was destroyed.
+static void coopDynLine(Rng & rng, std::unique_ptr<FM::CooperativeModel> & obj, const F::State & S, const F::Action & A,
+                        const F::DDN::TransitionMatrix & tm, const F::FactoredMatrix2D & rw) {
+    Line l; l << "C06" << "coopdyn" << "|"; l.nats(S); l.nats(A); dumpGraph(l, obj->getGraph());
+    l << "|" << (size_t)tm.size();
+    for (auto & m : tm) { l << (size_t)m.rows() << (size_t)m.cols(); for (long j = 0; j < m.rows(); ++j) for (long x = 0; x < m.cols(); ++x) l << (double)m(j, x); }
+    l << "|" << (size_t)rw.bases.size();
+    for (auto & b : rw.bases) { putTag(l, b.tag); putTag(l, b.actionTag); l << (size_t)b.values.rows() << (size_t)b.values.cols();
+        for (long x = 0; x < b.values.rows(); ++x) for (long y = 0; y < b.values.cols(); ++y) l << (double)b.values(x, y); }
+    l << "|";
+    const auto & g = obj->getGraph();
+    for (size_t i = 0; i < S.size(); ++i) {
+        l << g.getSize(i) << g.getPartialSize(i);
+        for (size_t j = 0; j < g.getSize(i); ++j) { auto [pid, aid] = g.getIds(i, j); l << pid << aid << g.getId(i, pid, aid) << g.getPartialSize(i, aid); }
+    }
+    l << "|";
+    size_t nS = 1, nA = 1; for (auto x : S) nS *= x; for (auto x : A) nA *= x;
+    auto nth = [](const F::Factors & sp, size_t k) { F::Factors f(sp.size()); for (size_t q = sp.size(); q-- > 0;) { f[q] = k % sp[q]; k /= sp[q]; } return f; };   // last factor fastest
+    std::vector<std::pair<size_t, size_t>> qs;
+    if (nS * nA <= 12) { for (size_t x = 0; x < nS; ++x) for (size_t y = 0; y < nA; ++y) qs.push_back({x, y}); }
+    else for (int q = 0; q < 8; ++q) qs.push_back({rng.below(nS), rng.below(nA)});
+    std::unique_ptr<FM::CooperativeModel> copy(new FM::CooperativeModel(*obj));
+    l << (size_t)qs.size();
+    for (size_t qi = 0; qi < qs.size(); ++qi) {
+        const bool viaCopy = qi * 2 >= qs.size();
+        if (viaCopy && obj) obj.reset();                 // the copy must not depend on the original (DDN holds a reference to the graph)
+        const FM::CooperativeModel & m = viaCopy ? *copy : *obj;
+        F::State s = nth(S, qs[qi].first); F::Action a = nth(A, qs[qi].second);
+        for (auto x : s) l << (size_t)x; for (auto x : a) l << (size_t)x;
+        l << viaCopy << m.getExpectedReward(s, a, s);
+        const auto ps = F::toPartialFactors(s), pa = F::toPartialFactors(a);
+        for (size_t k = 0; k < nS; ++k) {
+            F::State s1 = nth(S, k);
+            l << m.getTransitionProbability(s, a, s1) << m.getTransitionFunction().getTransitionProbability(ps, pa, F::toPartialFactors(s1));
+        }
+        // a marginal: the PartialFactors overload on a non-empty, possibly non-prefix subset of the next-state features
+        F::PartialFactors sub;
+        for (size_t q = 0; q < S.size(); ++q) if (rng.coin()) { sub.first.push_back(q); sub.second.push_back(rng.below(S[q])); }
+        if (sub.first.empty()) { size_t q = S.size() - 1 - rng.below(std::min<size_t>(2, S.size())); sub.first.push_back(q); sub.second.push_back(rng.below(S[q])); }
+        l << (size_t)sub.first.size(); for (auto x : sub.first) l << (size_t)x; for (auto x : sub.second) l << (size_t)x;
+        l << m.getTransitionFunction().getTransitionProbability(ps, pa, sub);
+        if (sub.first[0] != 0) stat("coopdyn:marginal_non_prefix");
+    }
+    l.emit();
+    stat("coopdyn:lines"); stat("coopdyn:queries", (long)qs.size()); stat("coopdyn:features_" + std::to_string(S.size()));
+    obj.reset(copy.release());
 }
 static void coopCase(Rng & rng, int force = 0) {   // force: 1 = well-formed arguments with discount 2.0, 2 = with NaN
     // CooperativeModel constructor: graph (possibly incomplete), transition matrices (count / shape / rows possibly wrong),
@@ -532,6 +683,7 @@ static void coopCase(Rng & rng, int force = 0) {   // force: 1 = well-formed arg
         size_t cols = safeSpace(bm.actionTag, A) + ((bad && bmode == 2) ? 1 : 0);
         size_t rows = safeSpace(bm.tag, S) + ((bad && bmode == 3) ? 1 : 0);
         bm.values = Matrix2D::Zero(rows, cols);
+        for (size_t x = 0; x < rows; ++x) for (size_t y = 0; y < cols; ++y) bm.values(x, y) = verif::dyadicReward(rng);
         putTag(l, bm.tag); putTag(l, bm.actionTag); l << rows << cols;
         rw.bases.push_back(bm);
     }
@@ -543,6 +695,7 @@ static void coopCase(Rng & rng, int force = 0) {   // force: 1 = well-formed arg
         for (size_t i = 0; i < nf; ++i) { const auto & m = obj->getTransitionFunction().transitions[i]; for (long j = 0; j < m.rows(); ++j) for (long x = 0; x < m.cols(); ++x) l << (double)m(j, x); }
     }
     l.emit();
+    if (obj) coopDynLine(rng, obj, S, A, tm, rw);
     stat("coop:" + err); stat("coop_tmode:" + std::to_string(tmode > 3 ? 4 : tmode)); if (nB) stat("coop_bmode:" + std::to_string(bmode > 3 ? 4 : bmode));
 }
 
@@ -581,7 +734,8 @@ template <class E, class M> static void learnedFlat(Rng & rng, const char * file
     if (!m) m = lmCtor<M>(file, cls, 0.75, [&](double d) { if constexpr (std::is_constructible_v<M, const E &, double, bool>) return std::make_unique<M>(exp, d, true); else return std::make_unique<M>(exp, d); });
     auto rows = [](Line & l, const M & mm) { lmRowsFlat(l, mm); };
     for (int i = (int)rng.range(3, 10); i > 0; --i) {
-        switch (rng.below(4)) {
+        switch (rng.below(5)) {
+            case 4: exp.reset(); lmOp(file, cls, "resetSync", 0.0, *m, rows, [&] { m->sync(); }); break;
             case 0: { double d = makeDiscount(rng, false); lmOp(file, cls, "setDiscount", d, *m, rows, [&] { m->setDiscount(d); }); break; }
             case 1: rec(); rec(); lmOp(file, cls, "record", 0.0, *m, rows, [&] {}); break;
             case 2: lmOp(file, cls, "sync", 0.0, *m, rows, [&] { m->sync(); }); break;
@@ -605,7 +759,8 @@ template <class M> static void learnedCoop(Rng & rng, const char * file, const c
     if (!m) m = lmCtor<M>(file, cls, 0.75, make);
     auto rows = [](Line & l, const M & mm) { lmRowsCoop(l, mm); };
     for (int i = (int)rng.range(3, 8); i > 0; --i) {
-        switch (rng.below(3)) {
+        switch (rng.below(4)) {
+            case 3: exp.reset(); lmOp(file, cls, "resetSync", 0.0, *m, rows, [&] { m->sync(); }); break;
             case 0: { double d = makeDiscount(rng, false); lmOp(file, cls, "setDiscount", d, *m, rows, [&] { m->setDiscount(d); }); break; }
             case 1: rec(); rec(); lmOp(file, cls, "record", 0.0, *m, rows, [&] {}); break;
             case 2: lmOp(file, cls, "sync", 0.0, *m, rows, [&] { m->sync(); }); break;
@@ -715,6 +870,7 @@ void verif_case(Rng & rng, long idx, const std::string & tier) {
     if (idx < 4) { witnessCases(idx); return; }
     if (idx == 4) { discCase(rng); return; }
     if (idx == 5) { bigRowCase(); return; }
+    if (idx == 6) { amdpZeroBucketsCase(); return; }
     switch (idx % 16) {
         case 0: isprobCase(rng); learnedCase(rng); break;
         case 1: amdpCase<false>(rng, idx); break;
@@ -727,7 +883,7 @@ void verif_case(Rng & rng, long idx, const std::string & tier) {
         case 8: case 14: historyCase<POMDP::SparseModel<MDP::SparseModel>>(rng, tier); break;
         case 9: historyCase<POMDP::Model<MDP::SparseModel>>(rng, tier); break;
         case 10: historyCase<POMDP::SparseModel<MDP::Model>>(rng, tier); break;
-        case 15: chainCase(rng); chainCase(rng); break;
+        case 15: chainCase(rng); chainCase(rng); loadCase<MDP::Model>(rng); loadCase<MDP::SparseModel>(rng); break;
     }
 }
 }
